@@ -99,6 +99,62 @@ type hResult struct {
 	disag []string
 }
 
+// freshSrc is the container the current tree generates for freshCfg: the
+// run-time helpers the templates emit are executed from it (package
+// internal/zzvfgen, overlay only).
+var freshSrc string
+
+const freshCfg = `meta:
+  pkg: zzvfgen
+parameters:
+  a: '%env("A")%'
+  b: '%envInt("B")%'
+  c: '%todo()%'
+  d: 'x%a%y'
+`
+
+func freshContainer(repo string) (string, error) {
+	dir, err := os.MkdirTemp("", "vfgen")
+	if err != nil {
+		return "", err
+	}
+	defer os.RemoveAll(dir)
+	cfg := filepath.Join(dir, "c.yaml")
+	out := filepath.Join(dir, "gen.go")
+	os.WriteFile(cfg, []byte(freshCfg), 0o644)
+	cmd := exec.Command("go", "run", ".", "build", "-i", cfg, "-o", out)
+	cmd.Dir = repo
+	cmd.Env = append(os.Environ(), "GOFLAGS=-mod=mod", "GOPROXY=off", "GOSUMDB=off", "GOTOOLCHAIN=local")
+	if b, err := cmd.CombinedOutput(); err != nil {
+		return "", fmt.Errorf("%v: %s", err, lastLines(string(b), 5))
+	}
+	b, err := os.ReadFile(out)
+	return string(b), err
+}
+
+// buildOverlay: harness files, API shims, the skeleton package and the freshly
+// generated container.
+func buildOverlay(repo, root string) (map[string][]byte, error) {
+	ov, err := engine.HarnessOverlay(repo, filepath.Join(root, "harness"))
+	if err != nil {
+		return nil, err
+	}
+	src, err := freshContainer(repo)
+	if err != nil {
+		fmt.Println("NOTE: the current tree does not generate the reference container (harnesses of internal/zzvfgen are left out):", err)
+		for f := range ov {
+			if strings.Contains(f, "/internal/zzvfgen/") {
+				delete(ov, f)
+				droppedHarness[f] = true
+			}
+		}
+		return ov, nil
+	}
+	freshSrc = src
+	ov[filepath.Join(repo, "internal", "zzvfgen", "gen.go")] = []byte(src)
+	return ov, nil
+}
+
 // harness files left out because they do not compile against the current tree
 var droppedHarness = map[string]bool{}
 
@@ -113,7 +169,7 @@ func runProperty(repo, root, id, tier, only string) int {
 	}
 	seed := 0
 	fmt.Sscanf(os.Getenv("VERIF_SEED"), "%d", &seed)
-	ov, err := engine.HarnessOverlay(repo, filepath.Join(root, "harness"))
+	ov, err := buildOverlay(repo, root)
 	if err != nil {
 		fmt.Println("INCONCLUSIVE: overlay:", err)
 		return 2
@@ -596,18 +652,34 @@ func writeOverlay(repo, root, pkgDir, dir string, tries int) error {
 		// native environment stubs: calls <pkg>.<Func>( in the package's own
 		// files are redirected to vfStub_<pkg>_<Func> in a rewritten copy of the
 		// current source (the engine does the same redirection by name)
+		if hd == "internal/zzvfgen" {
+			// the package exists only as generated text
+			gp := filepath.Join(dir, "fresh_gen.go.txt")
+			os.WriteFile(gp, []byte(freshSrc), 0o644)
+			repl[filepath.Join(repo, hd, "gen.go")] = gp
+		}
 		if len(stubs) > 0 {
-			srcs, _ := os.ReadDir(filepath.Join(repo, hd))
-			for _, e := range srcs {
-				n := e.Name()
-				if e.IsDir() || !strings.HasSuffix(n, ".go") || strings.HasSuffix(n, "_test.go") || strings.HasPrefix(n, "zz_vf_") {
-					continue
+			type srcFile struct{ name, text string }
+			var srcs []srcFile
+			if hd == "internal/zzvfgen" {
+				srcs = append(srcs, srcFile{"gen.go", freshSrc})
+			} else {
+				ents, _ := os.ReadDir(filepath.Join(repo, hd))
+				for _, e := range ents {
+					n := e.Name()
+					if e.IsDir() || !strings.HasSuffix(n, ".go") || strings.HasSuffix(n, "_test.go") || strings.HasPrefix(n, "zz_vf_") {
+						continue
+					}
+					b, err := os.ReadFile(filepath.Join(repo, hd, n))
+					if err != nil {
+						continue
+					}
+					srcs = append(srcs, srcFile{n, string(b)})
 				}
-				b, err := os.ReadFile(filepath.Join(repo, hd, n))
-				if err != nil {
-					continue
-				}
-				src := string(b)
+			}
+			for _, sf := range srcs {
+				n := sf.name
+				src := sf.text
 				changed := false
 				keep := ""
 				// local names under which this file imports each package (by last path element)
@@ -726,11 +798,7 @@ func selfTest(ctx *runCtx, results []*hResult) (validated int, problems []string
 		os.WriteFile(filepath.Join(dir, "selftest_in.json"), in, 0o644)
 		outPath := filepath.Join(dir, "selftest_out.json")
 		os.Remove(outPath)
-		cmd := exec.Command("go", "test", "-vet=off", "-count=1", "-overlay", filepath.Join(dir, "overlay.json"), "-run", "^TestVFSelfTest$", "./"+d)
-		cmd.Dir = ctx.repo
-		cmd.Env = append(os.Environ(), "GOFLAGS=-mod=mod", "GOPROXY=off", "GOSUMDB=off", "GOTOOLCHAIN=local",
-			"VF_SELFTEST_IN="+filepath.Join(dir, "selftest_in.json"), "VF_SELFTEST_OUT="+outPath)
-		out, _ := cmd.CombinedOutput()
+		out := goTest(ctx.repo, dir, "^TestVFSelfTest$", d, "VF_SELFTEST_IN="+filepath.Join(dir, "selftest_in.json"), "VF_SELFTEST_OUT="+outPath)
 		ob, err := os.ReadFile(outPath)
 		if err != nil {
 			problems = append(problems, fmt.Sprintf("self-test in %s: native run produced no traces: %s", d, lastLines(string(out), 8)))
@@ -785,13 +853,37 @@ func runReplay(repo, dir string) (bool, string) {
 		Dir     string `json:"dir"`
 	}
 	json.Unmarshal(mb, &meta)
-	cmd := exec.Command("go", "test", "-vet=off", "-count=1", "-overlay", filepath.Join(dir, "overlay.json"), "-run", "^TestVFReplay$", "./"+meta.Dir)
-	cmd.Dir = repo
-	cmd.Env = append(os.Environ(), "GOFLAGS=-mod=mod", "GOPROXY=off", "GOSUMDB=off", "GOTOOLCHAIN=local",
-		"VF_MODEL="+filepath.Join(dir, "model.json"), "VF_HARNESS="+meta.Harness)
-	out, _ := cmd.CombinedOutput()
-	s := string(out)
+	s := goTest(repo, dir, "^TestVFReplay$", meta.Dir, "VF_MODEL="+filepath.Join(dir, "model.json"), "VF_HARNESS="+meta.Harness)
 	return strings.Contains(s, "VF-VIOLATION"), s
+}
+
+// goTest runs one test of package pkgDir of the repository under the overlay
+// of dir. A package that exists only in the overlay has no directory to run
+// in: its test binary is built with -c and run in dir.
+func goTest(repo, dir, run, pkgDir string, env ...string) string {
+	base := append(os.Environ(), "GOFLAGS=-mod=mod", "GOPROXY=off", "GOSUMDB=off", "GOTOOLCHAIN=local")
+	base = append(base, env...)
+	ov := filepath.Join(dir, "overlay.json")
+	if _, err := os.Stat(filepath.Join(repo, pkgDir)); err == nil {
+		cmd := exec.Command("go", "test", "-vet=off", "-count=1", "-overlay", ov, "-run", run, "./"+pkgDir)
+		cmd.Dir = repo
+		cmd.Env = base
+		out, _ := cmd.CombinedOutput()
+		return string(out)
+	}
+	bin := filepath.Join(dir, "pkg.test")
+	defer os.Remove(bin)
+	cmd := exec.Command("go", "test", "-vet=off", "-c", "-o", bin, "-overlay", ov, "./"+pkgDir)
+	cmd.Dir = repo
+	cmd.Env = base
+	if out, err := cmd.CombinedOutput(); err != nil {
+		return string(out)
+	}
+	cmd = exec.Command(bin, "-test.count=1", "-test.run", run)
+	cmd.Dir = dir
+	cmd.Env = base
+	out, _ := cmd.CombinedOutput()
+	return string(out)
 }
 
 var replayMu sync.Mutex
